@@ -863,6 +863,46 @@ pub fn generate(check: &str, tier: &str, seed: u64) -> Scenario {
                 steps.push(CStep::Await(0));
                 clients.push(ClientScript { start_us: *cr.pick(&[0, 0, 10, 1000]), chunk_mode: *cr.pick(&[0, 0, 2]), chunk_n: 64, chunk_pause_us: 0, hostile: false, steps });
             }
+            // a quarter of the scenarios are shaped for orderings ACROSS keys: readers send a whole
+            // burst of GETs alternating over two keys in one go, writers set those keys in turn,
+            // one acknowledged request at a time; disk latency stalls a reader between two reads
+            // while a writer gets through several acknowledged round trips
+            let mut skr = Rng::stream(seed, "c11-skew");
+            let skew = skr.one_in(4);
+            if skew {
+                clients.clear();
+                let readers = skr.range(1, 2) as usize;
+                let writers = skr.range(1, 2) as usize;
+                for _ in 0..readers {
+                    let first = skr.usize_below(2);
+                    let mut steps = Vec::new();
+                    for _ in 0..skr.range(1, 4) {
+                        let n = *skr.pick(&[3usize, 3, 4, 6]);
+                        for i in 0..n {
+                            steps.push(CStep::Send(Req::Get((first + i) % 2)));
+                        }
+                        steps.push(CStep::Await(0));
+                        if skr.one_in(3) {
+                            steps.push(CStep::Pause(skr.range(1, 2000)));
+                        }
+                    }
+                    clients.push(ClientScript { start_us: *skr.pick(&[0, 0, 5, 50, 300]), chunk_mode: 0, chunk_n: 64, chunk_pause_us: 0, hostile: false, steps });
+                }
+                for _ in 0..writers {
+                    let n = skr.range(2, 8) as usize;
+                    let first = skr.usize_below(2);
+                    let mut steps = Vec::new();
+                    for i in 0..n {
+                        tag += 1;
+                        let k = (first + i) % 2;
+                        let req = if skr.one_in(6) { Req::Del(vec![k]) } else { Req::Set(k, Val { tag, len: *skr.pick(&[8, 9, 40]) }) };
+                        steps.push(CStep::Send(req));
+                        steps.push(CStep::Await(0));
+                    }
+                    clients.push(ClientScript { start_us: *skr.pick(&[0, 0, 5, 50, 300]), chunk_mode: 0, chunk_n: 64, chunk_pause_us: 0, hostile: false, steps });
+                }
+                net.max_delay_us = *skr.pick(&[0, 0, 20]);
+            }
             let mut cfg = net_store_cfg(&mut cr);
             let mut merges = 0;
             match cr.below(3) {
@@ -882,6 +922,10 @@ pub fn generate(check: &str, tier: &str, seed: u64) -> Scenario {
             if cr.one_in(2) {
                 sim.latency_pm = *cr.pick(&[100, 400]);
                 sim.max_latency_us = *cr.pick(&[10, 2000]);
+            }
+            if skew && !skr.one_in(4) {
+                sim.latency_pm = *skr.pick(&[200, 400, 700]);
+                sim.max_latency_us = *skr.pick(&[500, 2000, 10_000]);
             }
             Scenario {
                 check: check.to_string(),
